@@ -165,6 +165,41 @@ fn raw_walk(msg: &[u8], v5: bool) -> (usize, usize, usize) {
     (enc, off, min_nonce)
 }
 
+/// independent check of a request's NTS authenticator: walk the raw datagram to its first NtsEncryptedField and
+/// ask the cipher itself (not the parser's `RawEncryptedField::decrypt`) whether (nonce, ciphertext, prefix)
+/// authenticates under `key`.  `None`: no such field.
+fn independent_auth(msg: &[u8], v5: bool, key: &[u8]) -> Option<bool> {
+    let cutoff = if v5 { 0 } else { 24 };
+    let mut off = 48;
+    while off <= msg.len() && msg.len() - off > cutoff {
+        if msg.len() - off < 4 {
+            break;
+        }
+        let ty = u16::from_be_bytes([msg[off], msg[off + 1]]);
+        let len = u16::from_be_bytes([msg[off + 2], msg[off + 3]]) as usize;
+        let wire = next4(len);
+        if len < 4 || off + wire > msg.len() {
+            break;
+        }
+        if ty == 0x0404 {
+            if len < 8 {
+                return Some(false);
+            }
+            let nl = u16::from_be_bytes([msg[off + 4], msg[off + 5]]) as usize;
+            let cl = u16::from_be_bytes([msg[off + 6], msg[off + 7]]) as usize;
+            let ns = off + 8;
+            let cs = ns + next4(nl);
+            if ns + nl > off + len || cs + cl > off + len {
+                return Some(false);
+            }
+            let cipher = make_cipher(key)?;
+            return Some(cipher.decrypt(&msg[ns..ns + nl], &msg[cs..cs + cl], &msg[..off]).is_ok());
+        }
+        off += wire;
+    }
+    None
+}
+
 fn mac_len(p: &NtpPacket<'_>) -> usize {
     match &p.mac {
         None => 0,
@@ -483,7 +518,7 @@ fn abstract_request(msg: &[u8], keyset: &KeySet, run: &mut Run) -> Abs {
         Some(c) => u16::from(c.algorithm).to_string(),
     };
     a.text = format!(
-        "parse={} v={} client={} poll={} xmit={} reft={} U={} A={} E={} ck={} encw={} mac={}",
+        "parse={} v={} client={} poll={} xmit={} reft={} U={} A={} E={} ck={} encw={} mac={} dok={}",
         parse,
         v,
         a.client as u8,
@@ -495,7 +530,9 @@ fn abstract_request(msg: &[u8], keyset: &KeySet, run: &mut Run) -> Abs {
         field_list(&packet.efdata.encrypted, |f| req_field(f, v5)),
         ck,
         encw,
-        maclen
+        maclen,
+        // computed here (not via the method fix F-C17d adds) so that the harness also builds on the unfixed code
+        (!matches!(packet.header, NtpHeader::V5(_)) || packet.draft_id() == Some(crate::packet::v5::DRAFT_VERSION)) as u8
     );
     for f in packet.efdata.untrusted.iter().chain(packet.efdata.authenticated.iter()) {
         if let ExtensionField::UniqueIdentifier(b) = f {
@@ -510,7 +547,6 @@ fn abstract_request(msg: &[u8], keyset: &KeySet, run: &mut Run) -> Abs {
         .authenticated
         .iter()
         .chain(packet.efdata.encrypted.iter())
-        .take(8)
         .filter(|f| matches!(f, ExtensionField::NtsCookie(_) | ExtensionField::NtsCookiePlaceholder { .. }))
         .count();
     a.ck_lens = packet
@@ -518,7 +554,6 @@ fn abstract_request(msg: &[u8], keyset: &KeySet, run: &mut Run) -> Abs {
         .authenticated
         .iter()
         .chain(packet.efdata.encrypted.iter())
-        .take(8)
         .filter_map(|f| match f {
             ExtensionField::NtsCookie(b) => Some(b.len()),
             ExtensionField::NtsCookiePlaceholder { cookie_length } => Some(*cookie_length as usize),
@@ -841,11 +876,28 @@ fn oracle(run: &mut Run, w: &World, rvar: f64, msg: &[u8], buf: usize, in_deny: 
         if abs.has_cookie && abs.min_nonce >= 16 && 40 + sum_e > encw {
             ofail(run, "c17_accounting", &attrs(abs), &format!("decrypted fields account for {} bytes, encrypted field has {}", 40 + sum_e, encw));
         }
-        if abs.parse == "ok" && abs.version == 5 && !draft {
-            ofail(run, "c17_accounting", &attrs(abs), "accepted NTPv5 packet without draft identification");
+        // parser facts about the draft identification (hypotheses `ReqFacts.okDraft` / `draftFact`)
+        let dok = abs.text.contains(" dok=1");
+        if abs.parse == "ok" && abs.version == 5 && !dok {
+            ofail(run, "c17_accounting", &attrs(abs), "accepted NTPv5 packet without valid draft identification");
+        }
+        if abs.version == 5 && dok && !draft {
+            ofail(run, "c17_accounting", &attrs(abs), "valid draft identification but no draft field of 23 octets among the fields");
+        }
+        if abs.version == 5 && !dok && out.responded {
+            ofail(run, "c17_v5_without_draft_answered", &attrs(abs), "NTPv5 request without our draft identification was answered");
         }
     }
     // ---------------- C19
+    // a request the parser reports as authenticated must authenticate under the session's c2s key when the
+    // cipher is asked directly
+    if abs.has_cookie && abs.parse == "ok" {
+        if let Some(se) = sess {
+            if independent_auth(msg, abs.version == 5, &se.c2s) != Some(true) {
+                ofail(run, "c19_accepted_unauthenticated", &attrs(abs), "request accepted as authenticated although its authenticator does not verify under the c2s key");
+            }
+        }
+    }
     if abs.parse == "dec" && kind == "time" {
         ofail(run, "c19_auth_fail_time", &attrs(abs), "time answer to a request whose authentication failed");
     }
@@ -871,6 +923,15 @@ fn oracle(run: &mut Run, w: &World, rvar: f64, msg: &[u8], buf: usize, in_deny: 
             }
             if !p.untrusted.is_empty() && !(abs.version == 5 && p.untrusted.iter().all(|f| f.starts_with("k:f501"))) {
                 ofail(run, "c19_unauthenticated_content", &attrs(abs), &format!("unauthenticated fields in NTS time answer: {:?}", p.untrusted));
+            }
+            // every time answer to an authenticated request carries at least one fresh cookie (hence an
+            // encrypted field and an authenticator), and the request holds the cookie it authenticated with
+            if p.cookie_lens.is_empty() {
+                ofail(run, "c19_no_fresh_cookie", &attrs(abs), "time answer to an authenticated request without fresh cookie");
+            }
+            let fresh_len = if abs.text.contains(" ck=17 ") { 168 } else { 104 };
+            if !abs.text.split(' ').any(|w| w.starts_with("A=") && w[2..].split(',').any(|t| t.strip_prefix("c:").and_then(|n| n.parse::<usize>().ok()).map(|n| n >= fresh_len).unwrap_or(false))) {
+                ofail(run, "c19_cookie_present", &attrs(abs), "authenticated request without a cookie field as long as a fresh cookie among its authenticated fields");
             }
             let n = p.cookie_lens.len();
             if n > 8 || n > abs.n_cookie_fields {
@@ -1441,6 +1502,9 @@ fn gen_nts(rng: &mut Rng, v5: bool, ctx: &NtsCtx, id_offset: u32, nkeys: usize) 
             ct[i] ^= 0x40;
         }
         1 => ct = siv_encrypt(&ctx.sess.s2c, &m, &nonce, &pt),
+        // no (or a truncated) AEAD tag: an authenticator that cannot authenticate anything
+        2 if rng.chance(1, 2) => ct.clear(),
+        3 if rng.chance(1, 4) => ct.truncate(rng.usize(0, 15)),
         _ => {}
     }
     let mut body = vec![];
